@@ -497,7 +497,7 @@ class Engine:
         if t.startswith('"'):
             return StrV(bytes(t[1:-1], "utf-8").decode("unicode_escape"))
         if t.startswith('b"'):
-            return OpaqueV("bytes", "const:" + t[:40])
+            return OpaqueV("bytes", "const:" + t[:40], {"text": t})
         if re.match(r"^(.+::promoted\[\d+\])$", t):
             segs = t.split("::")
             for i in range(len(segs)):
@@ -526,7 +526,10 @@ class Engine:
         # named constants: crate-local `const X: T = const V;` items and the external table
         last = t.split("::")[-1]
         if ("constval:" + last) in self.funcs and re.match(r"^[\w:]+$", t):
-            return self.const(st, self.funcs["constval:" + last][0])
+            cv = self.funcs["constval:" + last]
+            if cv[1] in INT_TYPES and re.match(r"^-?\d+$", cv[0]):
+                return IntV(int(cv[0]), cv[1])
+            return self.const(st, cv[0])
         if last in NAMED_CONSTS and re.match(r"^[\w:]+$", t):
             v, ty = NAMED_CONSTS[last]
             return IntV(v, ty)
@@ -745,8 +748,11 @@ class Engine:
         raise EngineAbort("cast kind %s" % kind)
 
     # ---- running
-    def add_summary(self, pattern, handler, front=False):
-        if front:
+    def add_summary(self, pattern, handler, front=False, fallback=False):
+        if fallback:
+            self.fallbacks = getattr(self, "fallbacks", [])
+            self.fallbacks.append((re.compile(pattern), handler))
+        elif front:
             self.summaries.insert(0, (re.compile(pattern), handler))
         else:
             self.summaries.append((re.compile(pattern), handler))
@@ -756,6 +762,9 @@ class Engine:
 
     def find_summary(self, callee):
         for rx, h in self.summaries:
+            if rx.search(callee):
+                return h
+        for rx, h in getattr(self, "fallbacks", []):
             if rx.search(callee):
                 return h
         return None
